@@ -24,6 +24,6 @@ Print Assumptions C18_compute_callback_sees_current.
 (* a retain interrupted at predicate call i has processed exactly the first i entries *)
 Theorem C18_retain_prefix : forall khash keep s p,
   retain_until khash keep s p 0 = s /\
-  retain_until khash keep s p (length (nodes s)) = retain khash keep s p.
+  retain_until khash keep s p (List.length (nodes s)) = retain khash keep s p.
 Proof. intros; split; [apply retain_until_zero | apply retain_until_all]. Qed.
 Print Assumptions C18_retain_prefix.
